@@ -85,6 +85,10 @@ static void run_expert(const job *J, int wsfill, jout *o)
     superlu_options_t opt = J->opt;
     if (opt.ColPerm == MY_PERMC) memcpy(D.perm_c, J->permc_in, sizeof(int) * (size_t)n);
     if (!ilu && opt.IterRefine != NOREFINE && nrhs > 0 && wsfill) { StatInit(&D.stat); D.stat_on = 1; D.stat.RefineSteps = 1 + wsfill % 9; }   /* stale step count of an earlier call: output only */
+    /* ferr / berr / rcond / rpg are outputs: what an earlier call left in them (1.0 after a solve without refinement, a large bound) must not matter */
+    if (!ilu) for (int j = 0; j < nrhs; j++) { P->rset(D.ferr, (size_t)j, wsfill ? (wsfill & 1 ? 1.0L : 1e6L * (1 + wsfill % 7)) : 0.0L); P->rset(D.berr, (size_t)j, wsfill ? 1.0L : 0.0L); }
+    if (opt.ConditionNumber == YES) P->rset(D.rcond_p, 0, wsfill ? 0.25L * (1 + wsfill % 3) : 0.0L);
+    if (opt.PivotGrowth == YES) P->rset(D.rpg_p, 0, wsfill ? 2.0L : 0.0L);
     xdrv_call(&D, &opt);
     int_t info = D.info; o->info = (long long)info; h_ll(o, 0, info); HB(0, D.equed, 1);
     int full = info >= 0 && (info == 0 || info == n + 1 || (ilu && info <= n));
@@ -123,6 +127,7 @@ static void run_trf(const job *J, int wsfill, jout *o)
             h_ll(o, 0, info2); h_dense(o, 4, P, &SX);
             /* condition estimate and growth factor as the expert driver forms them */
             double rc[2], fe[8], be[8]; memset(rc, 0, sizeof rc); memset(fe, 0, sizeof fe); memset(be, 0, sizeof be);   /* storage for float or double */
+            if (wsfill) { for (int j = 0; j < 4 && j < nrhs; j++) { P->rset(fe, (size_t)j, wsfill & 1 ? 1.0L : 1e6L * (1 + wsfill % 7)); P->rset(be, (size_t)j, 1.0L); } P->rset(rc, 0, 0.5L); }   /* left-overs of an earlier call in output-only arrays */
             char nrm[2] = { J->trans == NOTRANS ? '1' : 'I', 0 };
             ld anorm = P->langs(nrm, &R.A); P->gscon(nrm, &R.L, &R.U, anorm, rc, &R.stat, &info3);
             h_ll(o, 0, info3); HB(6, rc, P->rsz);
